@@ -41,6 +41,16 @@ def plan_with_objects(lib, r):
         if ctors and meths:
             mi, mf = meths[0]
             plan.append({"f": mi, "variant": 0, "args": {p["name"]: libs.base_value(p, r) for p in mf["params"]}, "obj": "o_%s_0" % c, "cls": c, "op": "call"})
+        # free functions taking an object of this class (by const / non-const reference or pointer)
+        if ctors:
+            for fi, f in enumerate(lib["functions"]):
+                cps = [p for p in f["params"] if p["kind"] in ("cls_cptr", "cls_cref", "cls_ref") and p.get("cls") == c]
+                if f.get("cls") or not cps:
+                    continue
+                for vj, v in enumerate(f["variants"]):
+                    for oi in range(len(ctors) * 2):
+                        args = {p["name"]: (r.choice(libs.battery(p["T"])) if p["kind"] == "val" else None) for p in f["params"][:v["nparams"]]}
+                        plan.append({"f": fi, "variant": vj, "args": args, "arg_objs": {p["name"]: "o_%s_%d" % (c, oi) for p in cps}, "op": "call"})
         if dtor:
             for oi in range(len(ctors) * 2):
                 plan.append({"f": dtor[0], "variant": 0, "args": {}, "obj": "o_%s_%d" % (c, oi), "cls": c, "op": "delete"})
@@ -129,6 +139,8 @@ def run_library(case):
                     res["violations"].append({"mech": "destructor:wrong-object-or-count", "detail": "%s call %d: destructor records %r, expected one for this=%s" % (lib["name"], k, d, want)})
                 live -= 1
             else:
+                if call.get("arg_objs"):
+                    call = dict(call, args=dict(call["args"], **{n_: serials.get(o_, -1) for n_, o_ in call["arg_objs"].items()}))
                 for mech, detail in engine.compare_call(lib, k, call, trace, outs.get(k), serials, C_CONV):
                     res["violations"].append({"mech": mech, "detail": "%s: %s" % (lib["name"], detail)})
             res["stats"]["calls_compared"] = res["stats"].get("calls_compared", 0) + 1
